@@ -45,7 +45,7 @@ func init() {
 		// ... and nothing else of the loaded package (which contains that earlier output) reaches naming or aliasing
 		gen.CheckSourceScopeReaders(c.Run, c.Prog)
 		c.Run.Floor("G-MOCK/qualifier-final", 1)
-		c.RunSkeletons(SkelOpts{Rules: []string{"G-MOCK/qualifier-final"}, Env: smallEnv, NoExpand: true})
+		c.RunSkeletons(SkelOpts{Rules: []string{"G-MOCK/qualifier-final"}, Env: smallEnv, NoExpand: true, UnknownOptions: true})
 		c.Run.Floor("G-RM/before-load", 1)
 		c.Run.Floor("G-RM/error", 2)
 	})
@@ -70,6 +70,6 @@ func init() {
 		loadErrorsTable(c)
 		c.Run.Floor("G-CLI/errors", 4)
 		c.Run.Floor("G-MOCK/write-once", 1)
-		c.RunSkeletons(SkelOpts{Rules: []string{"G-MOCK", "G-FORMAT"}, Env: smallEnv, Formatters: tmpl.Formatters, NoExpand: true})
+		c.RunSkeletons(SkelOpts{Rules: []string{"G-MOCK", "G-FORMAT"}, Env: smallEnv, Formatters: tmpl.Formatters, NoExpand: true, UnknownOptions: true})
 	})
 }
